@@ -27,6 +27,10 @@ def make_jobs(rng, n, pid):
             j = c11.tree_contention_job(rng, "%s-%05d" % (pid, i))
         elif m == 1:
             j = c10.multigen_job(rng, "%s-%05d" % (pid, i))
+        elif m == 2:
+            # retain / iteration racing with replacing writers (conditional removals on list and tree bins)
+            import c07
+            j = c07.iter_job(rng, "%s-%05d" % (pid, i), kind_of=rng.choice(["retain", "retain", "iter"]), tree_only=(i % 2 == 0))
         else:
             j = gen.conc_job(rng, "%s-%05d" % (pid, i), cfgname=names[i % len(names)], whole=0.3, maxops=4)
             if j["sched"].get("kind") == "os":
@@ -46,7 +50,7 @@ def bulk_jobs(rng, tier):
           gen.table_hasher({k: 3 + 64 * (k % 5) for k in range(400)})]
     sizes = [0, 1, 2, 3, 9, 12, 13, 25, 50, 100, 200] if tier == "quick" else list(range(0, 40)) + [50, 64, 100, 128, 200, 300]
     for sz in sizes:
-        for hint in ("exact", "zero", "half"):
+        for hint in ("exact", "lower", "zero", "half", "exact_half", "exact_zero"):
             for how in ("collect_map", "collect_set", "extend_map"):
                 for h in hs:
                     es = [[k, 1, 1000 + k, k % 3] for k in range(1, sz + 1)]
@@ -104,7 +108,16 @@ def run(pid, tier, seed, njobs=None):
         c04_kind = c04_kind or (fu.get("e") == "bad" and fu.get("how") == "double_drop")
         where = ("bulk:%s:%s" % (job["bulk"]["how"], job["bulk"]["hint"])) if bulk else job.get("cfg")
         sig = "%s:%s:%s" % (fu.get("e"), fu.get("how", fu.get("ty", "")), where)
-        if (pid == "C04") != bool(c04_kind):
+        if pid == "C04" and not c04_kind:
+            # the first rejected event is a memory-safety one (C03's); C04 still owns the run when it also
+            # holds exactly-once evidence further on (a double drop / double free / leak in the end state)
+            later = [x for x in p["ev"] if (x.get("e") == "bad" and x.get("how") == "double_drop") or
+                     (x.get("e") == "end" and (x.get("alive") or x.get("live") or x.get("lviol") or x.get("dfree")))]
+            if not later:
+                continue     # reported by the sibling check only
+            fu = later[0]
+            sig = "%s:%s:%s" % (fu.get("e"), fu.get("how", fu.get("ty", "")), where)
+        elif pid == "C03" and c04_kind:
             continue     # reported by the sibling check
         verdict.violation(sig, rid, {"job": job2, "events": p["ev"][max(0, d["matched_events"] - 8):d["matched_events"] + 2], "diagnosis": d,
                                      "end": trace.get("end")},
